@@ -1141,3 +1141,65 @@ def expand_text(g, x, fr):
         return _ast.unparse(expand(g, x, fr))
     except Exception:
         return _ast.unparse(x)
+
+
+def bytes_shape(g, x, fr):
+    """A bytes (or str) expression as a sequence of segments: literal
+    constants and opaque parts, after expand(): concatenation and
+    sep.join((a, b, ...)) are flattened, adjacent literals merged.
+    [('lit', b'MAIL FROM:<'), ('opaque', <ast>), ('lit', b'>')]"""
+    import ast as _ast
+    from ..model import walk_own
+    grown = False
+    if isinstance(x, _ast.Name):
+        # cmd = <start>; cmd += <more> (under conditions): the start, then
+        # possibly more
+        fn = fr.ctx.func
+        asg = [a for a in walk_own(fn.node) if isinstance(a, _ast.Assign)
+               and len(a.targets) == 1 and
+               isinstance(a.targets[0], _ast.Name) and
+               a.targets[0].id == x.id]
+        aug = [a for a in walk_own(fn.node) if isinstance(a, _ast.AugAssign)
+               and isinstance(a.target, _ast.Name) and a.target.id == x.id
+               and isinstance(a.op, _ast.Add)]
+        stores = [y for y in walk_own(fn.node) if isinstance(y, _ast.Name)
+                  and y.id == x.id and isinstance(y.ctx, (_ast.Store,
+                                                            _ast.Del))]
+        if len(asg) == 1 and aug and len(stores) == 1 + len(aug):
+            x = asg[0].value
+            grown = True
+    x = expand(g, x, fr)
+
+    def flat(y):
+        if isinstance(y, _ast.Constant) and isinstance(y.value,
+                                                       (bytes, str)):
+            return [('lit', y.value)]
+        if isinstance(y, _ast.BinOp) and isinstance(y.op, _ast.Add):
+            return flat(y.left) + flat(y.right)
+        if isinstance(y, _ast.Call) and isinstance(y.func, _ast.Attribute) \
+                and y.func.attr == 'join' and \
+                isinstance(y.func.value, _ast.Constant) and \
+                len(y.args) == 1 and \
+                isinstance(y.args[0], (_ast.Tuple, _ast.List)):
+            sep = y.func.value.value
+            out = []
+            for i, el in enumerate(y.args[0].elts):
+                if i and sep:
+                    out.append(('lit', sep))
+                out += flat(el)
+            if isinstance(y.args[0], _ast.List):
+                # a list may have been extended before the join
+                out.append(('more', sep))
+            return out
+        return [('opaque', y)]
+    segs = flat(x)
+    if grown:
+        segs.append(('more', b''))
+    out = []
+    for k, v in segs:
+        if k == 'lit' and out and out[-1][0] == 'lit' and \
+                type(out[-1][1]) is type(v):
+            out[-1] = ('lit', out[-1][1] + v)
+        else:
+            out.append((k, v))
+    return out
